@@ -324,3 +324,33 @@ Proof.
   exact (canon_unique K V cmp layer bf a2 b2 _ Ca2 Cb2).
 Qed.
 End COMMUTED.
+
+(** ... and an Insert and a Delete of different keys, in either order, end in the same tree *)
+Section COMMUTEID.
+Variables (K V : Type) (cmp : K -> K -> comparison) (veq : V -> V -> bool) (layer : K -> nat).
+Hypothesis cmp_eq : forall a b, cmp a b = Eq <-> a = b.
+Hypothesis cmp_antisym : forall a b, cmp b a = CompOpp (cmp a b).
+Hypothesis cmp_trans : forall a b c, cmp a b = Lt -> cmp b c = Lt -> cmp a c = Lt.
+Hypothesis veq_eq : forall x y, veq x y = true <-> x = y.
+Hypothesis layer_bound : forall k, layer k < max_layer_fuel.
+Notation IOK := (insert_ok K V cmp veq layer cmp_eq cmp_antisym cmp_trans veq_eq layer_bound).
+Notation DOK := (delete_ok K V cmp veq layer cmp_eq cmp_antisym cmp_trans veq_eq layer_bound).
+
+Theorem insert_delete_commute bf m l k1 v1 k2 v2 :
+  canon K V cmp layer bf m l -> k1 <> k2 -> Spec.lookup K V cmp k2 l = Some v2 ->
+  oks (insert K V cmp veq layer m k1 v1) (fun a1 =>
+  oks (delete K V cmp veq layer a1 k2 v2) (fun a2 =>
+  oks (delete K V cmp veq layer m k2 v2) (fun b1 =>
+  oks (insert K V cmp veq layer b1 k1 v1) (fun b2 => same_tree K V a2 b2)))).
+Proof.
+  intros C N H2.
+  eapply oks_weaken; [exact (IOK bf m l k1 v1 C)|]. intros a1 Ca1.
+  assert (H2' : Spec.lookup K V cmp k2 (Spec.upsert K V cmp k1 v1 l) = Some v2)
+    by (rewrite (lookup_upsert_other K V cmp cmp_eq k1 v1 k2 N); exact H2).
+  eapply oks_weaken; [exact (DOK bf a1 _ k2 v2 Ca1 H2')|]. intros a2 Ca2.
+  eapply oks_weaken; [exact (DOK bf m l k2 v2 C H2)|]. intros b1 Cb1.
+  eapply oks_weaken; [exact (IOK bf b1 _ k1 v1 Cb1)|]. intros b2 Cb2. cbn beta in Ca2, Cb2.
+  rewrite (upsert_remove_comm K V cmp cmp_eq cmp_antisym cmp_trans k1 v1 k2 l N (cn_sorted _ _ _ _ _ _ _ C)) in Cb2.
+  exact (canon_unique K V cmp layer bf a2 b2 _ Ca2 Cb2).
+Qed.
+End COMMUTEID.
